@@ -66,6 +66,10 @@ def check(ctx):
         clone_provenance(ctx, o)
     ctx.guarded(o, clone_links)
 
+    # the schedulers start their search at IResource.get_nearest_availability_date: its shape is C17's obligation, reused here
+    from . import c17 as _c17
+    _c17._search(ctx)
+
     o = ctx.ob('no_reservation_before_start_or_today', 'R8',
                "the fill loop is started at max(task.start, now()) and its first day is midnight of that date", floor=2)
     ctx.guarded(o, lambda o: fill_start(ctx, o, ps))
